@@ -191,6 +191,17 @@ def locate(t, depth=0):
     t = _some_of(T.peel(t, payloads=False))
     if depth > 40 or not isinstance(t, tuple):
         return t, Aff(0), None
+    # a slice-valued element of the value of `tuple((P1, .., Pn))(i)`: `field(field(okpayload(CALL), 1), k)` sits behind P1..Pk-1
+    if t[0] == "field" and isinstance(t[3], int) and isinstance(t[1], tuple) and t[1] and t[1][0] == "field" and t[1][3] == 1:
+        c_, i_ = _unwrap_result_tuple(t[1])
+        if c_ is not None and i_ == 1:
+            tup_ = _tuple_parts(c_)
+            if tup_ is not None and t[3] < len(tup_[1]) and all(d[0] is not None for d in tup_[1][:t[3]]):
+                b, off, ln = locate(tup_[0], depth + 1)
+                w = Aff(0)
+                for d in tup_[1][:t[3]]:
+                    w = w.add(d[0])
+                return b, off.add(w), tup_[1][t[3]][0]
     call, idx = _unwrap_result_tuple(t)
     if call is not None:
         name = call[1]
